@@ -154,14 +154,19 @@ pub fn core_families(rep: &mut Report, thorough: bool) {
 	run_into(rep, "D", fam::fam_d(body), &cfg);
 	run_into(rep, "F", fam::fam_f(body, thorough), &cfg);
 	run_into(rep, "V", fam::fam_vecs(body), &cfg);
+	run_into(rep, "M", fam::fam_same(body, thorough), &cfg);
+	run_into(rep, "K", fam::fam_kill(thorough), &cfg);
+	run_into(rep, "S", fam::fam_readers(thorough), &cfg);
+	run_into(rep, "G", fam::fam_debug(thorough), &cfg);
+	run_into(rep, "T", fam::fam_twice(Body { touch: true, yield_mid: false, panic: false, clear: false }, thorough), &cfg);
 	if thorough {
 		run_into(rep, "N-flavours", fam::fam_pairs_of(&fam::nested_specs(), "Nf", body, &FLAVOURS[1..]), &cfg);
-		run_into(rep, "E3", fam::fam_e3(Body { touch: true, yield_mid: false, panic: false }), &cfg);
-		run_into(rep, "N3", fam::fam_triples(Body { touch: true, yield_mid: false, panic: false }), &cfg);
+		run_into(rep, "E3", fam::fam_e3(Body { touch: true, yield_mid: false, panic: false, clear: false }), &cfg);
+		run_into(rep, "N3", fam::fam_triples(Body { touch: true, yield_mid: false, panic: false, clear: false }), &cfg);
 		for pb in [2u32, 3] {
 			let cfg4 = Cfg { max_preemptions: Some(pb), ..cfg.clone() };
-			run_into(rep, &format!("E4-4/pb{}", pb), fam::fam_e4(4, Body { touch: true, yield_mid: false, panic: false }), &cfg4);
-			run_into(rep, &format!("E4-5/pb{}", pb), fam::fam_e4(5, Body { touch: true, yield_mid: false, panic: false }), &cfg4);
+			run_into(rep, &format!("E4-4/pb{}", pb), fam::fam_e4(4, Body { touch: true, yield_mid: false, panic: false, clear: false }), &cfg4);
+			run_into(rep, &format!("E4-5/pb{}", pb), fam::fam_e4(5, Body { touch: true, yield_mid: false, panic: false, clear: false }), &cfg4);
 		}
 	}
 }
@@ -269,6 +274,8 @@ pub fn check_c11(tier: &str) -> ! {
 	// histories with several panics in a row (a second panic on an already poisoned Poisonable, a panic after
 	// a failed try, ...): menu search over the poisonable / plain programs with the C11 oracles as verdict
 	crate::menuchecks::c11_menu(&mut rep, thorough);
+	// "at any point": also when the panicking call is made by a destructor during an earlier unwind
+	crate::seqchecks::c11_nested_unwind(&mut rep, thorough);
 	// every release issued while a panic unwinds a hold must be a legal one ("released exactly once"): the audit is part of C11 here
 	let is_c11 = |v: &Viol| v.prop == "C05" || (v.prop == "C01" && v.key.starts_with("deadlock|")) || (v.prop == "C06" && (v.key.starts_with("key-lost") || (v.key.starts_with("probe-mismatch|after-") && v.key.contains("panic"))));
 	let moved: Vec<Viol> = rep.xrefs.iter().filter(|v| is_c11(v)).cloned().collect();
@@ -278,6 +285,6 @@ pub fn check_c11(tier: &str) -> ! {
 		v.prop = "C11".into();
 		rep.violation(v);
 	}
-	rep.set("rule", "the concurrent families re-instantiated with a panic injected at critical section j of thread i for every (i, j), every flavour (guard alive / scoped with lent key / scoped with owned key / scoped_try), kinds, modes; all interleavings at raw-operation granularity (the unwinding thread is preemptible at every release it performs). Oracle: the injected panic reaches the caller's catch_unwind; afterwards the panicking thread holds nothing, every release was legal (audit), its key is obtainable (or the lent key still works for the next acquisition), no deadlock: all other threads finish");
+	rep.set("rule", "the concurrent families re-instantiated with a panic injected at critical section j of thread i for every (i, j), every flavour (guard alive / scoped with lent key / scoped with owned key / scoped_try), kinds, modes; all interleavings at raw-operation granularity (the unwinding thread is preemptible at every release it performs). A sequential sweep repeats every flavour x kind with the call made by a destructor while the thread is already unwinding. Oracle: the injected panic reaches the caller's catch_unwind; afterwards the panicking thread holds nothing, every release was legal (audit), its key is obtainable (or the lent key still works for the next acquisition), no deadlock: all other threads finish");
 	rep.finish()
 }
